@@ -70,6 +70,9 @@ def clonesBeforeFit (c : EstCls) : Bool := (fitReceivers c).all (fun r => r.2.al
 /-- ThresholdOptimizer (prefit=False) fits a clone of the wrapped estimator -/
 def toClones : Bool := clonesBeforeFit .TO && (fitReceivers .TO).any (fun r => r.1 = "self.estimator_")
 
+/-- ThresholdOptimizer, prefit=True branch of `fit`: does it call `.fit` on anything? (lifted) -/
+def TOPreSrc (h0 : List Data) : Machine TOPreState := TOPre toPrefitRefits h0
+
 def gsRules : GSRules := ⟨retRule .GS, momentRule .GS⟩
 def egRules : EGRules := ⟨momentRule .EG, nuRule⟩
 
@@ -123,7 +126,7 @@ def flagsLine : String :=
   " F5b.EG=" ++ momentBit (momentRule .EG) ++ " F5c=" ++ ruleBit nuRule ++
   " F5d=" ++ advBit ++ " F5e=" ++ ruleBit crRule ++ " clone.TO=" ++ (if toClones then "1" else "0") ++
   " clone.GS=" ++ (if clonesBeforeFit .GS then "1" else "0") ++
-  " clone.EG=" ++ (if clonesBeforeFit .LAG && clonesBeforeFit .EG then "1" else "0") ++
+  " prefit.TO=" ++ (if toPrefitRefits then "0" else "1") ++ " clone.EG=" ++ (if clonesBeforeFit .LAG && clonesBeforeFit .EG then "1" else "0") ++
   " ret=" ++ (if estimators.all (fun c => fitReturns c == ["self"]) then "1" else "0") ++
   " predictPure=" ++ (if estimators.all (fun c => (predictAssigned c).isEmpty) then "1" else "0") ++
   " paramsAssigned=" ++ ",".intercalate (estimators.map (fun c => "|".intercalate (paramsAssignedInFit c ++ paramsMutatedInFit c)))
@@ -140,6 +143,10 @@ def handle (toks : List String) : Option String :=
     match m, cfg.toList with
     | "to", ['-'] =>
       pure (fmtView (TOsrc.view toCls ops) (changedCol TOsrc toParams "estimator" ops))
+    | "topre", ['-'] =>
+      let h0 : List Data := [⟨9, 3⟩]
+      pure (fmtView ((TOPreSrc h0).view (toPreCls h0) ops)
+        (onlyAtFit ops (changedCol (TOPreSrc h0) (fun s => s.user) "estimator(refitted)" ops)))
     | "cr", ['-'] => pure (fmtView (CRsrc.view crCls ops) (ops.map (fun _ => "-")))
     | "gs", ['-'] => pure (fmtView (GSsrc.view gsCls ops) (ops.map (fun _ => "-")))
     | "eg", [c] => do
